@@ -145,6 +145,31 @@ def run_job(job):
             stats["eval_determinism"] += 1
             if len(set(betas.values())) != 1:
                 V("evaluation of one request differs across records / static keys / paths", str(betas))
+        # degenerate and restored seeds: a setup restored from bytes evaluates with exactly the seed stored in it, whatever its
+        # static key (zero / constant / one-bit-different seeds; two different static keys each)
+        c = s.cmd("clogin_start", rng="b", pw=b"pw", out_state="z.cl", out_msg="z.cq")
+        s.de("rreq", bx(c.msg)[:sz.noe], out="z.rq")
+        blinded = m.oprf.G.decode_elem(bx(c.msg)[:sz.noe])
+        for si, sd in enumerate([bytes(sz.nh), b"\xff" * sz.nh, b"\x01" * sz.nh, bytes(sz.nh - 1) + b"\x01", seed_a[:-1] + bytes([seed_a[-1] ^ 1]), B[:sz.nh]]):
+            betas = {}
+            for lab, keys in (("keyA", A[sz.nh:]), ("keyB", B[sz.nh:])):
+                d = s.de("setup", sd + keys, out="Z" + lab)
+                evals += 1
+                if not d.ok:
+                    V("a valid setup with a degenerate OPRF seed is refused", "seed %s: %s" % (sd.hex(), d.get("err")))
+                    continue
+                if d.re != (sd + keys).hex():
+                    V("restored setup does not keep the stored OPRF seed", "seed %s re-encoded as %s" % (sd.hex(), d.re[:2 * sz.nh]))
+                rr = s.cmd("sreg_start", setup="Z" + lab, req="z.rq", cred=b"id", out="z.rr")
+                lr = s.cmd("slogin_start", rng=rng, setup="Z" + lab, file=None, req="z.cq", cred=b"id", out_state="z.sl", out_msg="z.cr")
+                evals += 2
+                betas[lab + "/registration"] = rr.msg[:2 * sz.noe] if rr.ok else None
+                betas[lab + "/login"] = lr.msg[:2 * sz.noe] if lr.ok else None
+            betas["model"] = m.oprf.G.encode_elem(m.oprf.blind_evaluate(m.oprf_key(sd, b"id"), blinded)).hex()
+            stats["eval_determinism"] += 1
+            stats["degenerate_seeds"] = stats.get("degenerate_seeds", 0) + 1
+            if len(set(betas.values())) != 1:
+                V("evaluation under a restored seed differs across static keys / from the specification", "seed %s: %s" % (sd.hex(), betas))
     stats["suites"] = {su: stats["reblind_pairs"]}
     return {"evals": evals, "nontrivial": stats["reblind_pairs"] + stats["param_changes"] + stats["eval_determinism"], "samples": samples,
             "violations": viol, "inconclusive": [], "stats": stats}
@@ -152,4 +177,7 @@ def run_job(job):
 
 def floors(tier, stats, results):
     missing = [x for x in okv.SUITES20 if stats.get("suites", {}).get(x, 0) < 40]
-    return ["fewer than 40 re-blinding pairs for suites %s" % missing] if missing else []
+    out = ["fewer than 40 re-blinding pairs for suites %s" % missing] if missing else []
+    if stats.get("degenerate_seeds", 0) < 6 * 20:
+        out.append("degenerate / restored OPRF seeds not evaluated on every suite")
+    return out
